@@ -1,6 +1,7 @@
 package rules
 
 import (
+	"go/types"
 	"regexp"
 	"sort"
 	"strings"
@@ -311,8 +312,34 @@ func runC19(e *Env) {
 		c.pathTo[f] = from
 		work = append(work, f)
 	}
+	// function-typed parameters: which functions the unlicensed static call sites pass
+	// (`splitProgram(cmd, strings.Fields)` vs `splitProgram(cmd, shellArgs)`), so that a
+	// call of the parameter is resolved per caller set instead of by signature
+	paramFns := map[*ssa.Function]map[int]map[*ssa.Function]bool{}
+	paramUnknown := map[*ssa.Function]map[int]bool{}
+	dynOnParam := map[*ssa.Function]map[int]bool{}
+	isFuncT := func(t types.Type) bool { _, ok := t.Underlying().(*types.Signature); return ok }
+	markUnknown := func(f *ssa.Function) {
+		again := false
+		for k, p := range f.Params {
+			if isFuncT(p.Type()) {
+				if paramUnknown[f] == nil {
+					paramUnknown[f] = map[int]bool{}
+				}
+				if !paramUnknown[f][k] && dynOnParam[f][k] {
+					again = true // its call of the parameter was resolved from the known callers only
+				}
+				paramUnknown[f][k] = true
+			}
+		}
+		if again && unguarded[f] {
+			delete(unguarded, f)
+			push(f, c.pathTo[f])
+		}
+	}
 	for _, f := range roots {
 		push(f, "")
+		markUnknown(f)
 	}
 	nSites := 0
 	type viol struct {
@@ -369,8 +396,62 @@ func runC19(e *Env) {
 							}
 							continue
 						}
+						for k, a := range com.Args {
+							if k >= len(sc.Params) || !isFuncT(sc.Params[k].Type()) {
+								continue
+							}
+							var fv *ssa.Function
+							known := false
+							switch y := ir.Resolve(a).(type) {
+							case *ssa.Function:
+								fv, known = y, true
+							case *ssa.MakeClosure:
+								fv, _ = y.Fn.(*ssa.Function)
+								known = fv != nil
+							}
+							if !known {
+								if paramUnknown[sc] == nil {
+									paramUnknown[sc] = map[int]bool{}
+								}
+								if !paramUnknown[sc][k] && dynOnParam[sc][k] && unguarded[sc] {
+									paramUnknown[sc][k] = true
+									delete(unguarded, sc)
+								}
+								paramUnknown[sc][k] = true
+								continue
+							}
+							if paramFns[sc] == nil {
+								paramFns[sc] = map[int]map[*ssa.Function]bool{}
+							}
+							if paramFns[sc][k] == nil {
+								paramFns[sc][k] = map[*ssa.Function]bool{}
+							}
+							paramFns[sc][k][fv] = true
+							if dynOnParam[sc][k] {
+								push(fv, ShortFn(sc)) // the callee was walked before this caller was seen
+							}
+						}
 						push(sc, ShortFn(f))
 						continue
+					}
+					// a call of one of f's own function-typed parameters
+					if pv, isP := ir.Resolve(com.Value).(*ssa.Parameter); isP && pv.Parent() == f && !com.IsInvoke() {
+						k := -1
+						for i, q := range f.Params {
+							if q == pv {
+								k = i
+							}
+						}
+						if k >= 0 && !paramUnknown[f][k] {
+							if dynOnParam[f] == nil {
+								dynOnParam[f] = map[int]bool{}
+							}
+							dynOnParam[f][k] = true
+							for fv := range paramFns[f][k] {
+								push(fv, ShortFn(f))
+							}
+							continue
+						}
 					}
 					// bound methods / function values passed as arguments are handled where they are created;
 					// dynamic calls and invocations of repository interfaces: call graph
@@ -380,6 +461,7 @@ func runC19(e *Env) {
 							for _, ed := range n.Out {
 								if ed.Site == x && e.P.Funcs[ed.Callee.Func] {
 									// restrict signature-based resolution to the same package family to avoid CHA noise
+									markUnknown(ed.Callee.Func)
 									push(ed.Callee.Func, ShortFn(f))
 								}
 							}
